@@ -605,6 +605,121 @@ scell!(CFlatSub, SFlatSub,
     print: |v| match &v.cmd { None => vec![], Some(Outer::Extra) => vec![s("extra")], Some(Outer::Base(Cmd2::Status)) => vec![s("status")], Some(Outer::Base(Cmd2::Remote(r))) => { let mut a = vec![s("remote")]; a.extend(print_remote(r)); a } },
     update_model: |v, m| { let n = match &v.cmd { Some(c) => overlay_outer(c, m), None => model_outer(m) }; if let Some(c) = n { v.cmd = Some(c); } });
 
+// two optional subcommand fields: one directly, one inside a flattened struct; each owns its names
+#[derive(Subcommand, Debug, PartialEq, Clone)]
+enum Pull {
+    Tag {
+        #[arg(long)]
+        name: Option<String>,
+    },
+}
+
+#[derive(Subcommand, Debug, PartialEq, Clone)]
+enum Deliver {
+    Push {
+        #[arg(long)]
+        name: Option<String>,
+    },
+}
+
+#[derive(Args, Debug, PartialEq, Clone)]
+struct Rest {
+    #[command(subcommand)]
+    deliver: Option<Deliver>,
+}
+
+#[derive(Parser, Debug, PartialEq, Clone)]
+#[command(name = "prog")]
+struct STwoSub {
+    #[arg(long)]
+    other: Option<String>,
+    #[command(subcommand)]
+    pull: Option<Pull>,
+    #[command(flatten)]
+    rest: Rest,
+}
+
+scell!(CTwoSub, STwoSub,
+    model: |m| Some(STwoSub {
+        other: m.get_one::<String>("other").cloned(),
+        pull: match m.subcommand() { Some(("tag", sm)) => Some(Pull::Tag { name: sm.get_one::<String>("name").cloned() }), _ => None },
+        rest: Rest { deliver: match m.subcommand() { Some(("push", sm)) => Some(Deliver::Push { name: sm.get_one::<String>("name").cloned() }), _ => None } },
+    }),
+    domain: vec![
+        STwoSub { other: None, pull: None, rest: Rest { deliver: None } },
+        STwoSub { other: Some(s("o")), pull: Some(Pull::Tag { name: None }), rest: Rest { deliver: None } },
+        STwoSub { other: None, pull: Some(Pull::Tag { name: Some(s("n")) }), rest: Rest { deliver: None } },
+        STwoSub { other: None, pull: None, rest: Rest { deliver: Some(Deliver::Push { name: None }) } },
+        STwoSub { other: None, pull: None, rest: Rest { deliver: Some(Deliver::Push { name: Some(s("n")) }) } },
+    ],
+    print: |v| {
+        let mut a = vec![];
+        if let Some(o) = &v.other { a.push(format!("--other={}", o)); }
+        if let Some(Pull::Tag { name }) = &v.pull { a.push(s("tag")); if let Some(n) = name { a.push(format!("--name={}", n)); } }
+        if let Some(Deliver::Push { name }) = &v.rest.deliver { a.push(s("push")); if let Some(n) = name { a.push(format!("--name={}", n)); } }
+        a
+    },
+    update_model: |v, m| {
+        if cli(m, "other") { v.other = m.get_one::<String>("other").cloned(); }
+        match m.subcommand() {
+            Some(("tag", sm)) => {
+                let old = match &v.pull { Some(Pull::Tag { name }) => name.clone(), None => None };
+                v.pull = Some(Pull::Tag { name: if cli(sm, "name") { sm.get_one::<String>("name").cloned() } else { old } });
+            }
+            Some(("push", sm)) => {
+                let old = match &v.rest.deliver { Some(Deliver::Push { name }) => name.clone(), None => None };
+                v.rest.deliver = Some(Deliver::Push { name: if cli(sm, "name") { sm.get_one::<String>("name").cloned() } else { old } });
+            }
+            _ => {}
+        }
+    });
+
+// a subcommand enum that itself asks for `subcommand_required` / `arg_required_else_help`: both are
+// parse-time demands and must be off in the command used for updating
+#[derive(Subcommand, Debug, PartialEq, Clone)]
+#[command(subcommand_required = true, arg_required_else_help = true)]
+enum Loud {
+    Status,
+    Tag {
+        #[arg(long)]
+        name: Option<String>,
+    },
+}
+
+#[derive(Parser, Debug, PartialEq, Clone)]
+#[command(name = "prog")]
+struct SLoudSub {
+    #[arg(long)]
+    other: Option<String>,
+    #[command(subcommand)]
+    cmd: Loud,
+}
+
+scell!(CLoudSub, SLoudSub,
+    model: |m| match m.subcommand() {
+        Some(("status", _)) => Some(SLoudSub { other: m.get_one::<String>("other").cloned(), cmd: Loud::Status }),
+        Some(("tag", sm)) => Some(SLoudSub { other: m.get_one::<String>("other").cloned(), cmd: Loud::Tag { name: sm.get_one::<String>("name").cloned() } }),
+        _ => None,
+    },
+    domain: vec![SLoudSub { other: None, cmd: Loud::Status }, SLoudSub { other: Some(s("o")), cmd: Loud::Tag { name: None } }, SLoudSub { other: None, cmd: Loud::Tag { name: Some(s("n")) } }],
+    print: |v| {
+        let mut a = vec![];
+        if let Some(o) = &v.other { a.push(format!("--other={}", o)); }
+        match &v.cmd { Loud::Status => a.push(s("status")), Loud::Tag { name } => { a.push(s("tag")); if let Some(n) = name { a.push(format!("--name={}", n)); } } }
+        a
+    },
+    update_model: |v, m| {
+        if cli(m, "other") { v.other = m.get_one::<String>("other").cloned(); }
+        match m.subcommand() {
+            Some(("status", _)) => v.cmd = Loud::Status,
+            Some(("tag", sm)) => {
+                let old = match &v.cmd { Loud::Tag { name } => name.clone(), _ => None };
+                v.cmd = Loud::Tag { name: if cli(sm, "name") { sm.get_one::<String>("name").cloned() } else { old } };
+            }
+            _ => {}
+        }
+    });
+
 fn corpus() -> Vec<Box<dyn Cell>> {
     vec![
         Box::new(CBool), Box::new(CCount), Box::new(CReqStr), Box::new(CReqU8), Box::new(CReqEnum), Box::new(CReqPos),
@@ -615,7 +730,7 @@ fn corpus() -> Vec<Box<dyn Cell>> {
         Box::new(COptVecStr), Box::new(COptVecN0),
         Box::new(CGlobal), Box::new(CDefMissing),
         Box::new(CSetFalse), Box::new(CDefVals), Box::new(CReqVec), Box::new(COptBool), Box::new(CShortOnly), Box::new(CReqPosVec), Box::new(CCountU8Def), Box::new(CReqFlatten), Box::new(CBoxFlatten), Box::new(CShortNames), Box::new(CShortNamesUpper), Box::new(CReqU32), Box::new(CScalarAppend), Box::new(CScalarN), Box::new(CReqScalarN),
-        Box::new(CFlatten), Box::new(COptFlatten), Box::new(CSub), Box::new(COptSub), Box::new(CFlatSub),
+        Box::new(CFlatten), Box::new(COptFlatten), Box::new(CSub), Box::new(COptSub), Box::new(CFlatSub), Box::new(CTwoSub), Box::new(CLoudSub),
     ]
 }
 
@@ -753,7 +868,7 @@ fn judge_update(c: &dyn Cell, start: &[String], upd: &[String], h: &mut Hist) ->
             // required arguments: only lines that stay on the value's own variant path are judged)
             let chain = |v: &[String]| -> Vec<String> { v.iter().filter(|t| ["status", "push", "tag", "remote", "add", "remove", "extra"].contains(&t.as_str())).cloned().collect() };
             let same_path = chain(upd).is_empty() || chain(upd) == chain(start);
-            if same_path && e.kind() == clap::error::ErrorKind::MissingRequiredArgument {
+            if same_path && matches!(e.kind(), clap::error::ErrorKind::MissingRequiredArgument | clap::error::ErrorKind::MissingSubcommand | clap::error::ErrorKind::DisplayHelpOnMissingArgumentOrSubcommand) {
                 bad.push((format!("{}: the update command requires an argument the update line does not name", c.name()), format!("start {:?} update {:?}: {}", start, upd, e.to_string().lines().next().unwrap_or(""))));
             }
         }
